@@ -5,11 +5,11 @@ CK = ('--bounds-check', '--pointer-check', '--signed-overflow-check', '--div-by-
 CKL = ('--bounds-check', '--signed-overflow-check', '--div-by-zero-check')
 OBLIGATIONS = []
 for e, fn in (('h_add', 'cds_list_add'), ('h_del', 'cds_list_del'), ('h_move', 'cds_list_move'), ('h_splice', 'cds_list_splice'), ('h_empty', 'cds_list_empty')):
-    OBLIGATIONS.append(Ob(name='C15.O1.' + fn, harness='C15/list.c', entry=e, unwind=1, cover=e in ('h_add', 'h_move', 'h_splice'), min_covers=2 if e in ('h_add', 'h_move', 'h_splice') else 0, checks=CK, functions=(fn,),
+    OBLIGATIONS.append(Ob(name='C15.O1.' + fn, harness='C15/list.c', entry=e, unwind=1, native=True, cover=e in ('h_add', 'h_move', 'h_splice'), min_covers=2 if e in ('h_add', 'h_move', 'h_splice') else 0, checks=CK, functions=(fn,),
                           desc=fn + ': local contract on a symbolic neighbourhood (neighbours relinked, nothing else written; del needs no list head; splice keeps what the destination already held)'))
 for fl in ('MEMB', 'MB', 'QSBR'):
     for e in ('h_register', 'h_unregister'):
-        OBLIGATIONS.append(Ob(name='C15.O2.%s.%s' % (fl.lower(), e[2:]), harness='C15/reg.c', entry=e, defines=('FLAVOR_' + fl, '_LGPL_SOURCE'), unwind=5, min_covers=2, checks=CKL,
+        OBLIGATIONS.append(Ob(name='C15.O2.%s.%s' % (fl.lower(), e[2:]), harness='C15/reg.c', entry=e, defines=('FLAVOR_' + fl, '_LGPL_SOURCE'), unwind=5, native=True, min_covers=2, checks=CKL,
                               functions=('rcu_register_thread', 'rcu_unregister_thread'),
                               desc='%s %s: one insertion/removal of the own node inside one rcu_registry_lock critical section, from whichever list holds it; other readers untouched; qsbr: offline before the lock / online after it' % (fl.lower(), e[2:])))
 for fl in ('MEMB', 'MB'):
@@ -22,12 +22,12 @@ AA = ('arena_alloc.0:17', 'arena_alloc.1:3', 'arena_alloc.2:2')
 OBLIGATIONS += [
     Ob(name='C15.O4.bp_expand_arena', harness=BP, entry='h_expand', defines=('_LGPL_SOURCE',), unwind=2, min_covers=2, checks=CKL, timeout=600, functions=('expand_arena', 'chunk_allocation_size'),
        desc='bp arena: first chunk of INIT_READER_COUNT zeroed slots; growth = in-place mremap (never MAYMOVE) doubling the capacity with zeroed new slots, else a new chunk of twice the capacity appended; existing chunks and slots never move nor change'),
-    Ob(name='C15.O4.bp_arena_alloc', harness=BP, entry='h_arena_alloc', defines=('_LGPL_SOURCE',), unwind=9, unwindset=AA, min_covers=4, checks=CKL, timeout=600, tier='B', bound='arena shape: one chunk of INIT_READER_COUNT (8) slots with arbitrary occupancy; all loops fully unwound (unwinding assertions on)', functions=('arena_alloc',),
+    Ob(name='C15.O4.bp_arena_alloc', harness=BP, entry='h_arena_alloc', defines=('_LGPL_SOURCE',), native=True, unwind=9, unwindset=AA, min_covers=4, checks=CKL, timeout=600, tier='B', bound='arena shape: one chunk of INIT_READER_COUNT (8) slots with arbitrary occupancy; all loops fully unwound (unwinding assertions on)', functions=('arena_alloc',),
        desc='bp arena_alloc for every occupancy of the first chunk: takes the first free slot without expanding and touches no other; a full arena expands exactly once; never returns an allocated slot'),
-    Ob(name='C15.O5.bp_register', harness=BP, entry='h_register_unregister', defines=('_LGPL_SOURCE',), unwind=6, unwindset=AA, min_covers=2, checks=CKL, timeout=600, tier='B', bound='arena empty (first registration) resp. one chunk; all loops fully unwound (unwinding assertions on)',
+    Ob(name='C15.O5.bp_register', harness=BP, entry='h_register_unregister', defines=('_LGPL_SOURCE',), native=True, unwind=6, unwindset=AA, min_covers=2, checks=CKL, timeout=600, tier='B', bound='arena empty (first registration) resp. one chunk; all loops fully unwound (unwinding assertions on)',
        functions=('urcu_bp_register', 'add_thread', 'urcu_bp_unregister', 'remove_thread', 'cleanup_thread', 'find_chunk'),
        desc='bp automatic registration (first use of an empty arena, before or after the library constructor): all signals blocked before the TLS re-check; slot allocation + list insertion under rcu_registry_lock with signals blocked; mask and lock restored on both paths; already registered (by a handler) => no-op; thread exit releases the slot for reuse'),
-    Ob(name='C15.O5.bp_register_already', harness=BP, entry='h_register_already', defines=('_LGPL_SOURCE',), unwind=6, unwindset=AA, min_covers=1, checks=CKL, timeout=600, tier='B', bound='arena empty (first registration) resp. one chunk; all loops fully unwound (unwinding assertions on)',
+    Ob(name='C15.O5.bp_register_already', harness=BP, entry='h_register_already', defines=('_LGPL_SOURCE',), native=True, unwind=6, unwindset=AA, min_covers=1, checks=CKL, timeout=600, tier='B', bound='arena empty (first registration) resp. one chunk; all loops fully unwound (unwinding assertions on)',
        functions=('urcu_bp_register',), desc='bp automatic registration when a signal handler registered the thread first: the re-check under blocked signals makes it a no-op (no second slot), mask restored'),
 ]
 OBLIGATIONS += [o for o in _c01.OBLIGATIONS if o.name.startswith('C01.O5.') or o.name.startswith('C01.O4.')]
